@@ -288,7 +288,7 @@ def main(run):
         run.count("extract_ir", section="correspondence")
 
     # ------------------------------------------------------------ end-to-end through the Phonopy API
-    _end_to_end(run, rng, thorough)
+    _end_to_end(run, rng, thorough, lines, meta)
 
     # ------------------------------------------------------------ compare with the model
     out = common.lean_run_driver("C09", lines)
@@ -331,6 +331,16 @@ def main(run):
             ncmp += 1
             if [int(t) for t in line.split()] != impl:
                 run.broke("correspondence", "length2mesh %s, model %s" % (impl, line), info)
+            k += 1
+        elif kind == "moment":
+            ncmp += 1
+            run.count("moment", section="correspondence")
+            if line in ("bad-op", "empty-window"):
+                run.broke("correspondence", "moment model: %s" % line, info)
+            else:
+                mv = float(Fraction(line))
+                if abs(mv - impl) > 1e-9 * max(1.0, abs(mv)):
+                    run.broke("correspondence", "PhononMoment order %d: implementation %.12g, model %.12g" % (info["order"], impl, mv), info)
             k += 1
         elif kind == "extract":
             ncmp += 1
@@ -396,7 +406,7 @@ def _same_grid(gp, m, info):
     return True, ""
 
 
-def _end_to_end(run, rng, thorough):
+def _end_to_end(run, rng, thorough, lines, meta):
     """Phonopy.run_mesh + thermal properties + smearing DOS with mesh symmetry on/off; init_mesh with IterMesh."""
     ncell = 16 if thorough else 4
     names = ["cscl", "nacl_prim", "zincblende_prim", "hcp", "bct", "rhombo", "mono_P", "triclinic", "wurtzite", "mono_Cm", "trig_P3"]
@@ -431,13 +441,40 @@ def _end_to_end(run, rng, thorough):
                 dd = ph.get_total_dos_dict()
                 w = md["weights"]
                 mom2 = float(np.dot(w, (md["frequencies"] ** 2).sum(axis=1)) / w.sum())
-                res[sym] = (np.array([tp["free_energy"], tp["entropy"], tp["heat_capacity"]]), np.array(dd["total_dos"]), mom2, int(w.sum()), fmax)
+                # phonon state moments through the API (orders 0..3, whole spectrum and a frequency window)
+                if sym:
+                    window = (0.37 * fmax, 0.81 * fmax)
+                moms = []
+                for order in (0, 1, 2, 3):
+                    for win in (None, window):
+                        kw = {} if win is None else dict(freq_min=win[0], freq_max=win[1])
+                        ph.run_moment(order=order, **kw)
+                        got = float(ph.get_moment())
+                        moms.append(got)
+                        # the definition, evaluated independently on the mesh that was used
+                        fr = np.array(md["frequencies"])
+                        lo = 1e-8 if win is None else win[0] - 1e-8
+                        hi = fr.max() + 1e-8 if win is None else win[1] + 1e-8
+                        sel = (lo < fr) & (fr < hi)
+                        ref = float((w[:, None] * np.where(sel, fr, 0.0) ** order * sel).sum() / (w[:, None] * sel).sum())
+                        run.count("oracle-moment", section="oracle")
+                        if abs(got - ref) > 1e-9 * max(1.0, abs(ref)):
+                            run.violation("Phonopy.run_moment", "moment-ne-definition" + ("-weighted" if w.max() > 1 else ""),
+                                          "moment of order %d is %.12g, sum_q w sum_band nu^k / sum_q w sum_band 1 = %.12g" % (order, got, ref),
+                                          dict(cell=name, mesh=mesh, shift=None if shift is None else list(shift), is_gamma_center=gamma,
+                                               is_time_reversal=tr, is_mesh_symmetry=sym, order=order, window=win))
+                        if sym and order in (1, 2, 3) and len(lines) < 100000 and (mesh, shift) == (variants[0][0], variants[0][1]):
+                            lines.append("moment %d %d %d %s %s %s %s" % (order, fr.shape[0], fr.shape[1], q(float(lo)), q(float(hi)),
+                                                                         " ".join(str(int(x)) for x in w), " ".join(q(float(x)) for x in fr.ravel())))
+                            meta.append(("moment", dict(cell=name, mesh=mesh, order=order, window=win), got, None))
+                res[sym] = (np.array([tp["free_energy"], tp["entropy"], tp["heat_capacity"]]), np.array(dd["total_dos"]), mom2, int(w.sum()), fmax,
+                            np.array(moms))
             cd = dict(cell=name, supercell=np.diag(smat).tolist(), mesh=mesh, shift=None if shift is None else list(shift),
                       is_gamma_center=gamma, is_time_reversal=tr, force_constants="gen.pair_fc")
             generic = U.expected_full_qpoints(mesh, shift, gamma)[1]
             a, b = res[True], res[False]
             worst = 0.0
-            for x, y in ((a[0], b[0]), (a[1], b[1]), (np.array(a[2]), np.array(b[2]))):
+            for x, y in ((a[0], b[0]), (a[1], b[1]), (np.array(a[2]), np.array(b[2])), (a[5], b[5])):
                 worst = max(worst, float(np.abs(x - y).max() / max(1.0, np.abs(y).max())))
             run.count("oracle-e2e", section="oracle")
             run.case(("e2e", name, tuple(mesh), shift, gamma, tr), nontrivial=True)
@@ -446,7 +483,33 @@ def _end_to_end(run, rng, thorough):
                 if generic:
                     k = "generic-shift-time-reversal" if tr else "generic-shift-" + k
                 run.violation("Phonopy.run_mesh", k,
-                              "thermal properties / smearing DOS / second moment differ between is_mesh_symmetry on and off (rel. %.3g)" % worst, cd)
+                              "thermal properties / smearing DOS / moments (orders 0-3, windowed) differ between is_mesh_symmetry on and off (rel. %.3g)" % worst, cd)
+        # projected moments (need eigenvectors): API vs the definition, mesh symmetry on and off
+        pmesh = [rng.randint(2, 3)] * 3
+        for sym in (True, False):
+            ph.run_mesh(pmesh, with_eigenvectors=True, is_mesh_symmetry=sym)
+            md = ph.get_mesh_dict()
+            fr, w, ev = np.array(md["frequencies"]), np.array(md["weights"]), np.array(md["eigenvectors"])
+            for order in (0, 1, 2, 3):
+                for win in (None, (0.37 * fr.max(), 0.81 * fr.max())):
+                    kw = {} if win is None else dict(freq_min=win[0], freq_max=win[1])
+                    with np.errstate(all="ignore"):
+                        ph.run_moment(order=order, is_projection=True, **kw)
+                    got = np.array(ph.get_moment(), dtype=float)
+                    lo = 1e-8 if win is None else win[0] - 1e-8
+                    hi = fr.max() + 1e-8 if win is None else win[1] + 1e-8
+                    sel = (lo < fr) & (fr < hi)
+                    p2 = np.abs(ev) ** 2  # [q, component, band]
+                    wq = w[:, None, None] * sel[:, None, :] * p2
+                    num = (wq * (np.where(sel, fr, 0.0) ** order)[:, None, :]).sum(axis=(0, 2))
+                    den = wq.sum(axis=(0, 2))
+                    with np.errstate(all="ignore"):
+                        ref = (num / den).reshape(-1, 3).sum(axis=1) / 3
+                    run.count("oracle-projected-moment", section="oracle")
+                    if np.isfinite(ref).all() and (got.shape != ref.shape or np.abs(got - ref).max() > 1e-9 * max(1.0, np.abs(ref).max())):
+                        run.violation("Phonopy.run_moment", "projected-moment-ne-definition",
+                                      "projected moment of order %d differs from its definition by %.3g" % (order, float(np.abs(got - ref).max()) if got.shape == ref.shape else -1.0),
+                                      dict(cell=name, mesh=pmesh, is_mesh_symmetry=sym, order=order, window=win))
         # length-specified mesh: stored mesh vs iterated mesh (init_mesh forces Gamma centre for a length)
         for length in ([6.0, 9.0, 13.0] if thorough else [9.0]):
             ph.init_mesh(mesh=length, is_gamma_center=False, with_eigenvectors=True)
